@@ -70,7 +70,9 @@ def gen_numbers(rng):
 PUNCT = list(" \t,;:()[]{}<>\"'=/|#!?*+-_@%&^~.$") + ["AS", "as", "x", "é", " asn:", "v"]
 
 
-def gen_line(rng, nums):
+def gen_line(rng, nums, asdot=True):
+    # with an IP stage in undo mode no separator may glue digit runs into something address-shaped
+    punct = PUNCT if asdot else [x for x in PUNCT if x not in (".", ":")]
     segs = []
     for _ in range(rng.randint(1, 7)):
         r = rng.random()
@@ -86,7 +88,7 @@ def gen_line(rng, nums):
         elif r < 0.7:
             txt = str(rng.randint(0, 99999))
             segs.append([txt, "asn" if txt in nums else "digits"])
-        elif r < 0.76 and any(int(n) > 65535 for n in nums if n.strip().isdigit()):
+        elif r < 0.76 and asdot and any(int(n) > 65535 for n in nums if n.strip().isdigit()):
             # the high.low (asdot) pair of a listed 4-byte number is ordinary dotted text - an address octet pair, a version
             n = int(rng.choice([x for x in nums if x.strip().isdigit() and int(x) > 65535]))
             segs.append([rng.choice(["%d.%d", "v%d.%d.swi", "cost %d.%d", "eos-4.%d.%d"]) % (n >> 16, n & 0xFFFF), "w"])
@@ -96,12 +98,12 @@ def gen_line(rng, nums):
     for i, s in enumerate(segs):
         if i:
             # separator must contain a non-digit so digit runs stay as labelled
-            out.append([rng.choice(PUNCT), "d"])
+            out.append([rng.choice(punct), "d"])
         out.append(s)
     if rng.random() < 0.3:
-        out.insert(0, [rng.choice(PUNCT), "d"])
+        out.insert(0, [rng.choice(punct), "d"])
     if rng.random() < 0.3:
-        out.append([rng.choice(PUNCT), "d"])
+        out.append([rng.choice(punct), "d"])
     return out
 
 
@@ -167,7 +169,8 @@ def _text(ctx, case, nc):
         fkw["undo_ip_anon"] = True
         ctx.count("runs_in_undo_mode")
     fa = nc.af.FileAnonymizer(anon_pwd=False, anon_ip=False, salt=salt, as_numbers=list(nums), **fkw)
-    lns = case.get("lines") or [gen_line(rng, nums) for _ in range(rng.randint(2, 10))]
+    # dotted text can combine into something address-shaped, which an IP stage in undo mode rightly rewrites: only without it
+    lns = case.get("lines") or [gen_line(rng, nums, asdot=not fkw.get("undo_ip_anon")) for _ in range(rng.randint(2, 10))]
     if not case.get("lines") and rng.random() < 0.04:
         # an as-path dump / a community list on one line: hundreds of occurrences
         big = []
